@@ -241,6 +241,10 @@ def run_web(sc: dict):
         ctor_kw, req_kw = {}, {}
         if pol != "unset":
             (ctor_kw if cfg.get("placement") == "ctor" else req_kw)["retries"] = H.mk_retry(pol)
+        if cfg.get("req_none") and cfg.get("placement") == "ctor":
+            req_kw["retries"] = None  # explicit None on the request: the constructor's policy stays in effect
+        if cfg.get("ctor_policy", "unset") != "unset" and cfg.get("placement") != "ctor" and pol not in ("unset", None):
+            ctor_kw["retries"] = H.mk_retry(cfg["ctor_policy"])  # overridden outright by the request's
         if cfg.get("redirect_kw", "unset") != "unset":
             req_kw["redirect"] = cfg["redirect_kw"]
         hdrs = mk_headers(cfg)
@@ -338,7 +342,7 @@ def shrink_web(sc):
             c = copy.deepcopy(sc)
             del c["config"]["headers"][i]
             yield c
-    for fld, simple in (("body", None), ("method", "GET"), ("hdr_container", "dict"), ("redirect_kw", "unset"), ("placement", "request")):
+    for fld, simple in (("body", None), ("method", "GET"), ("hdr_container", "dict"), ("redirect_kw", "unset"), ("placement", "request"), ("req_none", None), ("ctor_policy", "unset")):
         if cfg.get(fld, simple) != simple:
             c = copy.deepcopy(sc)
             c["config"][fld] = simple
